@@ -1,7 +1,8 @@
 ---- MODULE WcagLumAll ----
 (***************************************************************************)
 (* C05, thorough tier: all 16,777,216 luminances observed from the         *)
-(* implementation (one JSON chunk per red level, floor(L * 10^8)) against  *)
+(* implementation (one JSON chunk per red level, floor(L * 10^8)), and the  *)
+(* ratio of every colour against black and white, against                  *)
 (* Lum of Wcag.tla.  One state per red level.                              *)
 (***************************************************************************)
 EXTENDS Wcag, TLC, Json, IOUtils
@@ -10,6 +11,11 @@ Init == r \in 0..255
 Next == UNCHANGED r
 Spec == Init /\ [][Next]_r
 Obs(rr) == JsonDeserialize(IOEnv.LUM_DIR \o "/" \o ToString(rr) \o ".json")
-AllLumOk == LET o == Obs(r) IN
+AllLumOk == LET o == Obs(r).lum IN
   \A g \in 0..255 : \A b \in 0..255 : Abs(o[g + 1][b + 1] - Lum(<<r, g, b>>)) <= 3
+\* every colour against black and against white: the observed ratio (millionths, either argument order) is Ratio6
+AllVsBlackWhiteOk == LET o == Obs(r) IN
+  \A g \in 0..255 : \A b \in 0..255 :
+     /\ Abs(o.black[g + 1][b + 1] - Ratio6(<<r, g, b>>, <<0, 0, 0>>)) <= Ratio6Err + 1
+     /\ Abs(o.white[g + 1][b + 1] - Ratio6(<<r, g, b>>, <<255, 255, 255>>)) <= Ratio6Err + 1
 ====
